@@ -93,8 +93,8 @@ fn units() -> Vec<(&'static str, &'static str, &'static str)> {
         // parameter names of the declaration that are items in the hostile scope (the user's own impl uses other names)
         (
             "trait_parameter_names",
-            "#[::entrait::entrait]\npub trait @T@ { fn pget(&self, ident: u64) -> u64; fn plook(&self, key: u64, ident: u64) -> u64; }\nimpl @T@ for App { fn pget(&self, i: u64) -> u64 { i + 24 } fn plook(&self, k: u64, i: u64) -> u64 { k * 2 + i } }\n",
-            "{ let app = ::entrait::Impl::new(App); <::entrait::Impl<App> as @T@>::pget(&app, 5) + <::entrait::Impl<App> as @T@>::plook(&app, 5, 1) }",
+            "#[::entrait::entrait]\npub trait @T@ { fn pget(&self, ident: u64) -> u64; fn plook(&self, key: u64, ident: u64) -> u64; fn pmax(key: u64, ident: u64) -> u64; }\nimpl @T@ for App { fn pget(&self, i: u64) -> u64 { i + 24 } fn plook(&self, k: u64, i: u64) -> u64 { k * 2 + i } fn pmax(k: u64, i: u64) -> u64 { k * 3 + i } }\n",
+            "{ let app = ::entrait::Impl::new(App); <::entrait::Impl<App> as @T@>::pget(&app, 5) + <::entrait::Impl<App> as @T@>::plook(&app, 5, 1) + <::entrait::Impl<App> as @T@>::pmax(2, 1) }",
         ),
         (
             "trait_dyn_ref",
